@@ -11,10 +11,16 @@ for m in sorted(glob.glob('/verif/seeded/*/meta.json')):
     if hist:
         verdict = ('caught now' if now.get('rc', d.get('check_rc')) == 1 else 'NOT caught') + ' - ' + hist.split(';')[0].split('. ')[0]
     else:
-        verdict = 'caught by the first version of the check' if caught else 'missed'
-    if d.get('caught_by_other_check'):
-        verdict += ' (also caught by ' + d['caught_by_other_check']['check'] + ')'
+        verdict = 'caught by the first version of the check' if caught else ('caught now - missed by the version of the check it was first run against' if now.get('rc') == 1 else 'missed')
+    own = now.get('rc', d.get('check_rc')) == 1
+    other = d.get('caught_by_other_check')
+    if other and not own:
+        verdict = 'caught by the sibling check %s (%s)' % (other['check'], other.get('note', '').split(';')[0])
+    elif other:
+        verdict += ' (also caught by ' + other['check'] + ')'
     keys = (now.get('keys') or d.get('check_violation_keys') or [])[:3]
+    if other and not own:
+        keys = other.get('keys', [])[:3]
     rows.append('| `%s` | %s | %s | %s | %s |' % (slug, d['property'], d.get('needs', '').replace('|', '/'), verdict, ', '.join('`%s`' % k for k in keys)))
 print('| seeded change | property | needs, to manifest | result | monitor keys that fire |')
 print('|---|---|---|---|---|')
